@@ -40,6 +40,9 @@ type caseC30 struct {
 	Version uint   `json:"version"`
 	Pol     string `json:"pol"` // random|given|reducible
 	PerType int    `json:"per_type"`
+	// Content of the pre-existing files: "" / "text" (some bytes), "empty" (zero-length files, as an
+	// interrupted upload or a truncating sync tool leaves them), "binary"
+	Content string `json:"content,omitempty"`
 	// Password is only set by the random variant; empty means "derive from the case"
 	Password string `json:"password,omitempty"`
 }
@@ -51,7 +54,7 @@ func (c caseC30) String() string {
 			present = append(present, n)
 		}
 	}
-	return fmt.Sprintf("pre-existing={%s}x%d version=%d polynomial=%s", strings.Join(present, ","), c.PerType, c.Version, c.Pol)
+	return fmt.Sprintf("pre-existing={%s}x%d(%s) version=%d polynomial=%s", strings.Join(present, ","), c.PerType, c.Content, c.Version, c.Pol)
 }
 
 func dumpBackendC30(t testing.TB, be backend.Backend) map[string][]byte {
@@ -118,6 +121,13 @@ func runCaseC30(t testing.TB, st *verifkit.Stats, c caseC30, given chunker.Pol, 
 		for k := 0; k < c.PerType; k++ {
 			content := []byte(fmt.Sprintf("pre-existing %s #%d of case %v", typeNamesC30[i], k, c))
 			h := backend.Handle{Type: ft, Name: restic.Hash(content).String()}
+			switch c.Content {
+			case "empty":
+				content = nil
+			case "binary":
+				sum := restic.Hash(content)
+				content = append(sum[:], 0, 0xff, 2)
+			}
 			if ft == backend.ConfigFile {
 				h.Name = ""
 				if k > 0 {
@@ -270,7 +280,12 @@ func TestVerifC30Init(t *testing.T) {
 						if per == 2 && subset&^1 == 0 {
 							continue // nothing to double
 						}
-						cases = append(cases, caseC30{Subset: subset, Version: version, Pol: pol, PerType: per})
+						for _, content := range []string{"text", "empty"} {
+							if content == "empty" && subset == 0 {
+								continue
+							}
+							cases = append(cases, caseC30{Subset: subset, Version: version, Pol: pol, PerType: per, Content: content})
+						}
 					}
 				}
 			}
@@ -284,7 +299,7 @@ func TestVerifC30Init(t *testing.T) {
 		if c.Subset != 0 && c.Version >= restic.MinRepoVersion && c.Version <= restic.MaxRepoVersion {
 			key = c.String() // non-trivial: something is already there and the version is acceptable
 		}
-		classes := []string{fmt.Sprintf("version=%d", c.Version), "polynomial=" + c.Pol}
+		classes := []string{fmt.Sprintf("version=%d", c.Version), "polynomial=" + c.Pol, "content=" + c.Content}
 		for b, n := range typeNamesC30 {
 			if c.Subset&(1<<b) != 0 {
 				classes = append(classes, "pre="+n)
@@ -316,6 +331,7 @@ func TestVerifC30InitRandom(t *testing.T) {
 			Version:  rapid.OneOf(rapid.UintRange(0, 6), rapid.SampledFrom([]uint{1, 2, 1 << 31, ^uint(0)})).Draw(rt, "version"),
 			Pol:      rapid.SampledFrom([]string{"random", "given"}).Draw(rt, "pol"),
 			PerType:  rapid.IntRange(1, 3).Draw(rt, "pertype"),
+			Content:  rapid.SampledFrom([]string{"text", "empty", "binary"}).Draw(rt, "content"),
 			Password: rapid.OneOf(rapid.StringN(1, 40, 200), rapid.SampledFrom([]string{"p", "pass word", "p\x00q", "пароль", strings.Repeat("long", 300)})).Draw(rt, "password"),
 		}
 		n++
